@@ -16,6 +16,7 @@
 //! A new public accessor that is missing here is a review item: the list of
 //! covered accessors is in each `*_rows` function, in source order.
 
+use super::c05_sink as sink;
 use crate::core::{catch, panic_location, Ctx};
 use bcder::encode::Values;
 use bcder::Mode;
@@ -47,7 +48,12 @@ pub struct Table<T> {
     pub rows: Vec<Row<T>>,
     pub cross: Vec<Cross<T>>,
     pub states: Vec<State<T>>,
+    /// The structural encoders of both values streamed into part-writing and
+    /// refusing sinks (`c05_sink`); run when the first pass agreed.
+    pub streams: Option<Streams<T>>,
 }
+
+pub type Streams<T> = fn(&mut Ctx, &str, &T, &T, &dyn Fn() -> Value);
 
 fn state<T, F: Fn(&T) -> Result<T, String> + 'static>(name: &str, f: F) -> State<T> {
     (name.to_string(), Box::new(f))
@@ -257,6 +263,7 @@ pub fn cert_table(kind: &'static str) -> Table<Cert> {
         kind,
         rows: cert_rows(),
         cross: cert_cross(),
+        streams: Some(sink::cert),
         states: vec![
             state("clone", |c: &Cert| Ok(c.clone())),
             state("decode(to_captured)", |c: &Cert| Cert::decode(c.to_captured().into_bytes()).map_err(|e| e.to_string())),
@@ -313,6 +320,7 @@ pub fn crl_table(probes: Vec<Serial>) -> Table<Crl> {
             cross("signed_data ==", |a: &Crl, b: &Crl| a.signed_data() == b.signed_data()),
         ],
         // every `&mut self` method of `Crl` and the container that calls it (`CrlStore`)
+        streams: Some(sink::crl),
         states: vec![
             state("clone", |c: &Crl| Ok(c.clone())),
             state("cache_serials", |c: &Crl| {
@@ -431,6 +439,7 @@ pub fn manifest_table(base: uri::Rsync) -> Table<Manifest> {
         kind: "manifest",
         rows,
         cross: vec![],
+        streams: Some(sink::manifest),
         states: vec![
             state("clone", |m: &Manifest| Ok(m.clone())),
             state("decode(to_captured)", |m: &Manifest| Manifest::decode(m.to_captured().into_bytes(), true).map_err(|e| e.to_string())),
@@ -499,6 +508,7 @@ pub fn roa_table() -> Table<Roa> {
         kind: "roa",
         rows,
         cross: vec![],
+        streams: Some(sink::roa),
         states: vec![
             state("clone", |r: &Roa| Ok(r.clone())),
             state("decode(to_captured)", |r: &Roa| Roa::decode(r.to_captured().into_bytes(), true).map_err(|e| e.to_string())),
@@ -533,6 +543,7 @@ pub fn aspa_table() -> Table<Aspa> {
         kind: "aspa",
         rows,
         cross: vec![],
+        streams: Some(sink::aspa),
         states: vec![
             state("clone", |a: &Aspa| Ok(a.clone())),
             state("decode(to_captured)", |a: &Aspa| Aspa::decode(a.to_captured().into_bytes(), true).map_err(|e| e.to_string())),
@@ -563,6 +574,7 @@ pub fn csr_table() -> Table<RpkiCaCsr> {
             row("serde_json", |c: &RpkiCaCsr| serde_json::to_string(c).unwrap_or_else(|e| format!("error {}", e))),
         ],
         cross: vec![cross("subject ==", |a: &RpkiCaCsr, b: &RpkiCaCsr| a.subject() == b.subject())],
+        streams: Some(sink::csr),
         states: vec![
             state("clone", |c: &RpkiCaCsr| Ok(c.clone())),
             state("decode(to_captured)", |c: &RpkiCaCsr| RpkiCaCsr::decode(c.to_captured().as_slice()).map_err(|e| e.to_string())),
@@ -601,6 +613,7 @@ pub fn idcert_table(kind: &'static str) -> Table<IdCert> {
                 x == y
             }),
         ],
+        streams: Some(sink::idcert),
         states: vec![
             state("clone", |c: &IdCert| Ok(c.clone())),
             state("decode(to_captured)", |c: &IdCert| IdCert::decode(c.to_captured().as_slice()).map_err(|e| e.to_string())),
@@ -621,6 +634,7 @@ pub fn sigmsg_table(kind: &'static str) -> Table<SignedMessage> {
             row("to_captured", |m: &SignedMessage| hex(m.to_captured().as_slice())),
         ],
         cross: vec![],
+        streams: Some(sink::sigmsg),
         states: vec![
             state("clone", |m: &SignedMessage| Ok(m.clone())),
             state("decode(to_captured)", |m: &SignedMessage| SignedMessage::decode(m.to_captured().as_slice(), true).map_err(|e| e.to_string())),
@@ -712,6 +726,14 @@ pub fn compare<T>(ctx: &mut Ctx, table: &Table<T>, built: &T, decoded: &T, detai
                     json!({"panic": text, "case": detail()}),
                 );
             }
+        }
+    }
+    // The structural encoders of both values into sinks that take less than
+    // offered or refuse (only when the first pass agreed: the expectation is
+    // the object's own octets).
+    if bad == 0 {
+        if let Some(f) = table.streams {
+            f(ctx, table.kind, built, decoded, detail);
         }
     }
     // State across calls: a value brought into another state the public API
